@@ -44,6 +44,7 @@ def run(ctx):
     lincomb(ctx, F)
     for q, inner, rng in (('write_poly', 'write_inequality', 'skip_rows'), ('write_func', 'write_affcomb', 'skip_rows')):
         skipping(ctx, F, q, inner, rng)
+        row_separators(ctx, F, q)
     inequality(ctx, F)
     affcomb(ctx, F)
     wfloat(ctx, F)
@@ -251,6 +252,41 @@ def skipping(ctx, F, q, inner, rng):
         ctx.ok('C19.R2', site, 'an item is skipped only when options.%s contains its position, and the first skip writes the ellipsis' % rng, b.span)
     else:
         ctx.bad('C19.R2', site, 'items can be dropped silently (range=%s counter=%s silent-path=%s ellipsis=%s)' % (range_ok, counter_ok, silent, ell), b.span)
+
+
+def row_separators(ctx, F, q):
+    """one row per line: after a printed row a newline follows exactly when the row is not the last one (positions First and Middle of
+    with_position) -- otherwise two rows run together on one line, or the text ends in a stray empty line"""
+    b = ctx.body('C19.R2', q)
+    if b is None:
+        return
+    R = Resolver(b)
+    site = '%s#row-separator' % q
+    seps = set()
+    n = 0
+    for bb, t in b.calls():
+        c = Callee(t['func'])
+        if c.name != 'write_fmt':
+            continue
+        a = s(R.call_args(bb)[1])
+        if not (is_call(a, 'Arguments::from_str', 'Arguments::new_const') and a[2] and a[2][0] in (('const', '\n'), ('const', "\n"))):
+            if not (is_call(a, 'Arguments::from_str', 'Arguments::new_const') and a[2] and a[2][0][0] == 'const' and str(a[2][0][1]) == '\n'):
+                continue
+        pos = None
+        for l in literals(b, R, bb):
+            if l[0] == 'is' and len(l) > 2 and set(l[2]) <= {'First', 'Middle', 'Last', 'Only'}:
+                pos = set(l[2])
+        n += 1
+        if pos is None:
+            ctx.undecided('C19.R2', site, 'a newline is written without reference to the position of the row', b.where(bb))
+            return
+        seps |= pos
+    if n == 0:
+        ctx.undecided('C19.R2', site, 'no row separator found', b.span)
+    elif seps == {'First', 'Middle'}:
+        ctx.ok('C19.R2', site, 'a newline follows exactly the rows that are not the last', b.span)
+    else:
+        ctx.bad('C19.R2', site, 'a newline follows the rows at positions %s instead of First and Middle' % sorted(seps), b.span)
 
 
 def _after_in_iteration(cfg, a, b):
